@@ -63,6 +63,24 @@ def spec_hash():
     return file_hash(tree_files(SPEC, exts={'.tla', '.cfg'}))
 
 
+def module_hash(module, cfgs=()):
+    """hash of a TLA+ module, the modules it EXTENDS / INSTANCEs (transitively, within spec/) and the given cfg files"""
+    seen = set()
+    todo = [module]
+    while todo:
+        m = todo.pop()
+        f = '%s/%s.tla' % (SPEC, m)
+        if m in seen or not os.path.exists(f):
+            continue
+        seen.add(m)
+        txt = open(f).read()
+        for mm in re.finditer(r'EXTENDS\s+([^\n]+)', txt):
+            todo += [x.strip() for x in mm.group(1).split(',')]
+        for mm in re.finditer(r'INSTANCE\s+(\w+)', txt):
+            todo.append(mm.group(1))
+    return file_hash(['%s/%s.tla' % (SPEC, m) for m in seen] + ['%s/%s.cfg' % (SPEC, c) for c in cfgs])
+
+
 def harness_hash():
     return file_hash(tree_files(HARNESS + '/src') + [HARNESS + '/Cargo.toml', V + '/vlib.py', V + '/check', V + '/known_findings.json'])
 
@@ -103,7 +121,7 @@ def mc_stats(out):
 
 def run_mc(module, cfg, workers=8, timeout=1800, cache=True):
     """model-check an MC_* instance; cached by spec hash (the result depends only on the specification)"""
-    key = '%s-%s-%s' % (module, cfg, spec_hash())
+    key = '%s-%s-%s' % (module, cfg, module_hash(module, [cfg]))
     cf = WORK + '/mc/' + key + '.json'
     os.makedirs(WORK + '/mc', exist_ok=True)
     if cache and os.path.exists(cf):
@@ -131,7 +149,7 @@ def run_mc(module, cfg, workers=8, timeout=1800, cache=True):
 
 def ensure_lts(module, cfg, tags=('EDGE', 'STATE', 'UNIVERSE')):
     """emit the labelled transition system of an MC_* instance (cached by spec hash)"""
-    key = '%s-%s-%s' % (module, cfg, spec_hash())
+    key = '%s-%s-%s' % (module, cfg, module_hash(module, [cfg]))
     f = WORK + '/lts/' + key + '.out'
     os.makedirs(WORK + '/lts', exist_ok=True)
     if os.path.exists(f) and os.path.getsize(f) > 0:
@@ -218,6 +236,15 @@ def props_of(conj, sig, group):
     kind = sig.get('kind', '-')
     op = sig.get('op', '-')
     ps = set()
+    if sig.get('fault'):
+        ps.add('C20')
+        if conj == 'nopanic':
+            ps.add('C13')
+        if conj == 'lower':
+            ps.add('C08')
+        if conj == 'wellformed':
+            ps.add('C03')
+        return ps
     if kind == 'conc':
         ps.add(sig.get('prop', 'C16')[:3])
         if conj == 'nopanic':
